@@ -41,21 +41,53 @@ class FakeObject:
 
 
 class FakeResource:
-    def __init__(self, objects):
+    def __init__(self, objects, bucket=None):
         self.objects = objects
+        self.bucket = bucket
 
     def Object(self, bucket, key):
+        if self.bucket is not None and bucket != self.bucket:
+            raise KeyError('NoSuchBucket: %r' % (bucket,))
+        if key not in self.objects:
+            raise KeyError('NoSuchKey: %r' % (key,))
         return FakeObject(self.objects[key])
 
 
-def install(s3mod, pages=None, objects=None, page_size=2):
+# keys as they occur in real buckets: characters that URL decoding, path normalisation, stripping, case folding or
+# Unicode normalisation would change
+KEY_SHAPES = ['k.mos.xml', 'prog/20210101T120000+0100-1.mos.xml', 'a%41b%2Fc.mos.xml', 'sp ace/caf\u00e9.mos.xml',
+              'a//b/./c/../d.mos.xml', ' lead-and-trail .mos.xml', 'Upper/CASE.mos.xml', 'e\u0301-combining.mos.xml',
+              'q?versionId=1#frag.mos.xml', 'back\\slash.mos.xml', '/rooted/k.mos.xml', 'dir/.mos.xml']
+
+
+def key_variants(key):
+    """other keys a careless implementation might ask for instead of *key*"""
+    import urllib.parse
+    import posixpath
+    import unicodedata
+    vs = [urllib.parse.unquote_plus(key), urllib.parse.unquote(key), urllib.parse.quote(key), urllib.parse.quote_plus(key),
+          key.strip(), key.lower(), key.lstrip('/'), posixpath.normpath(key), key.replace('\\', '/'),
+          unicodedata.normalize('NFC', key), unicodedata.normalize('NFD', key), key.split('?')[0], key.split('#')[0]]
+    return [v for v in dict.fromkeys(vs) if v != key]
+
+
+def with_decoys(objects, decoy):
+    """*objects* plus a decoy object under every variant of every key (never replacing a real one)"""
+    out = dict(objects)
+    for k in objects:
+        for v in key_variants(k):
+            out.setdefault(v, decoy)
+    return out
+
+
+def install(s3mod, pages=None, objects=None, page_size=2, bucket=None, listed=None):
     """objects: {key: bytes}; pages default: the keys, page_size per page, with empty pages interleaved"""
     objects = objects or {}
     if pages is None:
-        keys = list(objects)
+        keys = list(objects) if listed is None else list(listed)
         pages = [{}]
         for i in range(0, len(keys), page_size):
             pages.append({'Contents': [{'Key': k} for k in keys[i:i + page_size]]})
             pages.append({})
     s3mod.s3._client = FakeClient(pages)
-    s3mod.s3._resource = FakeResource(objects)
+    s3mod.s3._resource = FakeResource(objects, bucket)
